@@ -462,6 +462,63 @@ PROPS["C19"]["harnesses"] += [
 # instead of a 7-way case split, which keeps every offset behind it concrete
 _CONN_UW = {"bump_allocator&8allocate": 2, "SharedManagementData12remove_state": 2,
             "SharedManagementData12reserve_port": 2}
+_c13 = []
+for (n, what) in [
+    ("c13_q_drop_sender_first", "sender and receiver attached, sender detaches first: not destroyed while the receiver is "
+                                "attached, destroyed exactly once (ownership acquired once) by the receiver's detach"),
+    ("c13_q_drop_receiver_first", "same, receiver detaches first"),
+    ("c13_q_second_sender_refused", "a second sender is refused as already connected; attached sides and resource untouched"),
+    ("c13_q_second_receiver_refused", "a second receiver is refused as already connected"),
+    ("c13_q_single_sender_and_recreate", "a lone sender destroys the resource on detach; the name is usable again"),
+    ("c13_q_single_receiver_and_recreate", "a lone receiver destroys the resource on detach; the name is usable again"),
+    ("c13_q_mismatch_buffer_same_role", "second sender with a different buffer size: refused as already connected, the "
+                                        "attached sender's role bit untouched (its detach destroys the resource once)"),
+    ("c13_q_mismatch_borrow_other_role", "receiver with a different max-borrow: refused with the specific error, its "
+                                         "role is rolled back, the sender's later detach destroys the resource once"),
+    ("c13_q_mismatch_channels_other_role", "receiver with a different number of channels: same"),
+    ("c13_q_race_detach_before_registration", "receiver attach racing the sender's detach after the storage was opened "
+                                              "but before the port is registered: refused as being cleaned up, never on "
+                                              "a destroyed resource; destroyed exactly once"),
+    ("c13_q_race_detach_after_registration_mismatch", "sender detaches right after the mismatching receiver registered: "
+                                                      "the refused attacher is the last one out and destroys the "
+                                                      "resource exactly once (no leak, no double destruction)"),
+    ("c13_q_race_detach_after_registration_match", "sender detaches right after the matching receiver registered: the "
+                                                   "attach succeeds on a live resource, receiver's detach destroys it"),
+    ("c13_q_forced_removal_receiver_then_sender_leaves", "remove_receiver on behalf of a dead receiver while the sender "
+                                                         "is attached: not destroyed under the survivor; its detach destroys once"),
+    ("c13_q_forced_removal_sender_after_receiver_left", "receiver leaves, then remove_sender for the dead sender is the "
+                                                        "last one out: destroyed exactly once"),
+]:
+    _c13.append(H("cal::conn::" + n, features=CAL, unwindset=_CONN_UW, covers=0, timeout=2400, mem_gb=14, tiers=("quick",),
+                  what=what, bounds="unwind 6; one concrete case, 2-3 attach operations"))
+for n in ["c13_t_mismatch_buffer_other_role", "c13_t_mismatch_overflow_other_role", "c13_t_mismatch_chunks_other_role",
+          "c13_t_mismatch_segments_other_role", "c13_t_mismatch_channels_same_role",
+          "c13_t_race_detach_before_registration_mismatch"]:
+    _c13.append(H("cal::conn::" + n, features=CAL, unwindset=_CONN_UW, covers=0, timeout=3600, mem_gb=14, tiers=("thorough",),
+                  what="further concrete cases of the mismatch / race family", bounds="unwind 6; one concrete case"))
+# the unsliced harnesses (symbolic case selection, 3-4 attach operations): 25-40 M variables, thorough tier only
+_c13 += [
+        H("cal::conn::c13_second_attach_and_drop_order", features=CAL, unwindset=_CONN_UW, covers=2, timeout=7200, mem_gb=34,
+          tiers=("thorough",),
+          what="second attach of either role refused without disturbing; both drop orders: destroyed exactly once by "
+               "the last detach, ownership acquired exactly once, never while a role is attached",
+          bounds="unwind 6"),
+        H("cal::conn::c13_single_role_and_recreate", features=CAL, unwindset=_CONN_UW, covers=0, timeout=7200, mem_gb=34,
+          tiers=("thorough",),
+          what="a lone role destroys the resource on detach; the name is usable again", bounds="unwind 6"),
+        H("cal::conn::c13_mismatching_attach", features=CAL, unwindset=_CONN_UW, covers=0, timeout=7200, mem_gb=34,
+          tiers=("thorough",),
+          what="each single mismatching parameter (symbolic) is refused with its specific error, leaves the sender "
+               "attached and the resource alive; a matching attach still works", bounds="unwind 6; 6 parameters"),
+        H("cal::conn::c13_attach_races_detach", features=CAL, unwindset=_CONN_UW, covers=2, timeout=7200, mem_gb=34,
+          tiers=("thorough",),
+          what="receiver attach racing the sender's detach at the two points where another process can act (symbolic "
+               "point and matching/mismatching)", bounds="unwind 6; 2 race points x matching/mismatching"),
+        H("cal::conn::c13_forced_removal", features=CAL, unwindset=_CONN_UW, covers=2, timeout=7200, mem_gb=26,
+          tiers=("thorough",),
+          what="remove_sender/remove_receiver on behalf of a dead peer before or after the survivor leaves (symbolic): "
+               "destroyed exactly once, never under the survivor", bounds="unwind 6"),
+]
 PROPS["C13"] = {
     "bounds": "one connection name, buffer 1, max borrow 1, 1 chunk, 1 segment, 1 channel; every drop order; each single "
               "mismatching parameter; forced removal of either role before or after the survivor leaves",
@@ -469,25 +526,7 @@ PROPS["C13"] = {
                "tier only and bounded to one race); what posix_shared_memory / process_local do with the ownership "
                "flag (files, shm unlink) - the storage is KStorage, only the DynamicStorage contract is exercised",
     "assumptions": ["KStorage (in-memory DynamicStorage, engine/hk/src/cal/kstorage.rs) stands in for the real storages"],
-    "harnesses": [
-        H("cal::conn::c13_second_attach_and_drop_order", features=CAL, unwindset=_CONN_UW, covers=2, timeout=2400, mem_gb=26,
-          what="second attach of either role refused without disturbing; both drop orders: destroyed exactly once by "
-               "the last detach, ownership acquired exactly once, never while a role is attached",
-          bounds="unwind 6"),
-        H("cal::conn::c13_single_role_and_recreate", features=CAL, unwindset=_CONN_UW, covers=0, timeout=2400, mem_gb=16,
-          what="a lone role destroys the resource on detach; the name is usable again", bounds="unwind 6"),
-        H("cal::conn::c13_mismatching_attach", features=CAL, unwindset=_CONN_UW, covers=0, timeout=3000, mem_gb=26,
-          what="each single mismatching parameter is refused with its specific error, leaves the sender attached and "
-               "the resource alive; a matching attach still works", bounds="unwind 6; 6 parameters"),
-        H("cal::conn::c13_attach_races_detach", features=CAL, unwindset=_CONN_UW, covers=2, timeout=3000, mem_gb=26,
-          what="receiver attach racing the sender's detach at the two points where another process can act (after "
-               "open / after port registration; hook in the storage model): refused as being cleaned up or attached "
-               "to a live resource, never to a destroyed one; destroyed exactly once by the last one out, also when "
-               "the last one out is a mismatching attacher", bounds="unwind 6; 2 race points x matching/mismatching"),
-        H("cal::conn::c13_forced_removal", features=CAL, unwindset=_CONN_UW, covers=2, timeout=3000, mem_gb=26,
-          what="remove_sender/remove_receiver on behalf of a dead peer before or after the survivor leaves: destroyed "
-               "exactly once, never under the survivor", bounds="unwind 6"),
-    ],
+    "harnesses": _c13,
     "claimed": False,
 }
 
